@@ -20,7 +20,7 @@ RULE = ("cases: a curve/surface/volume (rational or not, 2-D or 3-D) or a contai
 ASSUMPTIONS = ["nvmon.ref exact reference model for the input points; cos/sin of the angle from the math module (tolerance 1e-9*scale)"]
 FLOORS = {'quick': {'mapped-point': 3000, 'weights-unchanged': 150, 'inplace-semantics': 300, 'aggregate': 100},
           'thorough': {'mapped-point': 30000}}
-MANDATORY_TAGS = ['translate', 'rotate', 'scale', 'container', 'single', 'inplace', 'copy', 'rational', 'axis0', 'axis1', 'axis2',
+MANDATORY_TAGS = ['container:shape-listed-twice', 'translate', 'rotate', 'scale', 'container', 'single', 'inplace', 'copy', 'rational', 'axis0', 'axis1', 'axis2',
                   'dim2', 'pdim3', 'read-before-inplace', 'null-map', 'partially-iterated']
 TECHNIQUE = ("runtime monitoring: exact reference points of the input mapped by the exact affine map vs library evaluation of the "
              "result, plus object-identity / input-digest checks, under a seeded workload incl. containers")
@@ -52,6 +52,11 @@ def check(case, ctx):
         ctx.tag('rational')
     if case['container']:
         cls = {1: multi.CurveContainer, 2: multi.SurfaceContainer, 3: multi.VolumeContainer}[pdim]
+        if case['seed'] % 6 == 0:
+            # the same shape listed twice in the container (add() accepts it): every point still moves once
+            elems = elems + [elems[0]]
+            defs = defs + [defs[0]]
+            ctx.tag('container:shape-listed-twice')
         obj = cls(*elems)
         obj.sample_size = {1: 6, 2: 4, 3: 3}[pdim]
     else:
